@@ -7,6 +7,7 @@ package values
 
 //@ define isint(k Int) Bool = k >= 2 && k <= 12
 //@ define issint(k Int) Bool = k >= 2 && k <= 6
+//@ define isuint(k Int) Bool = k >= 7 && k <= 12
 //@ define isflt(k Int) Bool = k == 13 || k == 14
 //@ define isnum(k Int) Bool = isint(k) || isflt(k)
 //@ define isarr(k Int) Bool = k == 17 || k == 23
@@ -56,14 +57,65 @@ package values
 //@ loop 1 invariant elems: forall(k, 0, len(a), a[k] == box(r.b + k))
 //@ loop 1 decreases r.e + 1 - i
 
-// Equal/Less are treated as functions of their arguments (pure): within one
-// obligation the contents of compared slices are assumed unchanged.
+// ---- comparison (C09, C18) ---------------------------------------------------------
+// Equal/Less are treated as functions of their arguments (pure): within one obligation
+// the contents of compared slices are assumed unchanged. User ToLiquid methods are
+// assumed deterministic and effect-free (interface values.drop).
+
+//@ interface values.drop
+//@ method ToLiquid pure
+
+//@ func values.ToLiquid
+//@ pure
+//@ props C09 C18 C01
+//@ ensures plain: !is(value, values.drop) ==> result == value
+//@ ensures drop: is(value, values.drop) ==> result == value.(values.drop).ToLiquid()
+
+//@ func values.isUintKind
+//@ pure
+//@ props C09 C18 C01
+//@ ensures def: result == isuint(k)
+
+//@ func values.compareUint64
+//@ pure
+//@ props C09 C18 C01
+//@ ensures sign: (result == -1) == (a < b) && (result == 0) == (a == b) && (result == 1) == (a > b)
+
+// numeric value of an integer-kinded reflect.Value
+//@ func values.compareInts
+//@ pure
+//@ props C09 C18 C01
+//@ requires ints: isint(rvkind(a)) && isint(rvkind(b))
+//@ ensures sign: (result == -1) == (pl_int(rv_val(a)) < pl_int(rv_val(b))) && (result == 0) == (pl_int(rv_val(a)) == pl_int(rv_val(b))) && (result == 1) == (pl_int(rv_val(a)) > pl_int(rv_val(b)))
+
+//@ define numf(v Val) Flt = ite(isint(kind(v)), i2f(pl_int(v)), pl_flt(v))
+
 //@ func values.Equal
 //@ pure
-//@ unverified
 //@ props C09 C10 C18 C01
+//@ panics nothing
+//@ ensures nilOnlyNil: values.ToLiquid(a) == nil || values.ToLiquid(b) == nil ==> result == (values.ToLiquid(a) == nil && values.ToLiquid(b) == nil)
+//@ ensures integers: isint(kind(values.ToLiquid(a))) && isint(kind(values.ToLiquid(b))) ==> result == (pl_int(values.ToLiquid(a)) == pl_int(values.ToLiquid(b)))
+//@ ensures floats: isnum(kind(values.ToLiquid(a))) && isnum(kind(values.ToLiquid(b))) && (isflt(kind(values.ToLiquid(a))) || isflt(kind(values.ToLiquid(b)))) ==> result == feq(numf(values.ToLiquid(a)), numf(values.ToLiquid(b)))
+//@ ensures strings: kind(values.ToLiquid(a)) == String && kind(values.ToLiquid(b)) == String ==> result == (pl_str(values.ToLiquid(a)) == pl_str(values.ToLiquid(b)))
+//@ ensures bools: kind(values.ToLiquid(a)) == Bool && kind(values.ToLiquid(b)) == Bool ==> result == (pl_bool(values.ToLiquid(a)) == pl_bool(values.ToLiquid(b)))
+//@ ensures unlikeKinds: values.ToLiquid(a) != nil && values.ToLiquid(b) != nil && kind(values.ToLiquid(a)) != kind(values.ToLiquid(b)) && !(isnum(kind(values.ToLiquid(a))) && isnum(kind(values.ToLiquid(b)))) && !(isarr(kind(values.ToLiquid(a))) && isarr(kind(values.ToLiquid(b)))) ==> !result
+//@ ensures arrayLength: isarr(kind(values.ToLiquid(a))) && isarr(kind(values.ToLiquid(b))) && pl_len(values.ToLiquid(a)) != pl_len(values.ToLiquid(b)) ==> !result
+//@ loop 1 invariant sofar: true
 
 //@ func values.Less
 //@ pure
-//@ unverified
 //@ props C09 C18 C01
+//@ panics nothing
+//@ ensures nilNever: values.ToLiquid(a) == nil || values.ToLiquid(b) == nil ==> !result
+//@ ensures integers: isint(kind(values.ToLiquid(a))) && isint(kind(values.ToLiquid(b))) ==> result == (pl_int(values.ToLiquid(a)) < pl_int(values.ToLiquid(b)))
+//@ ensures floats: isnum(kind(values.ToLiquid(a))) && isnum(kind(values.ToLiquid(b))) && (isflt(kind(values.ToLiquid(a))) || isflt(kind(values.ToLiquid(b)))) ==> result == flt(numf(values.ToLiquid(a)), numf(values.ToLiquid(b)))
+//@ ensures strings: kind(values.ToLiquid(a)) == String && kind(values.ToLiquid(b)) == String ==> result == strlt(pl_str(values.ToLiquid(a)), pl_str(values.ToLiquid(b)))
+//@ ensures unlikeKinds: values.ToLiquid(a) != nil && values.ToLiquid(b) != nil && kind(values.ToLiquid(a)) != kind(values.ToLiquid(b)) && !(isnum(kind(values.ToLiquid(a))) && isnum(kind(values.ToLiquid(b)))) ==> !result
+
+// coherence of the operators, from the contracts alone
+//@ lemma eq_symmetric_ints [C09] (a any, b any): isint(kind(values.ToLiquid(a))) && isint(kind(values.ToLiquid(b))) ==> values.Equal(a, b) == values.Equal(b, a)
+//@ lemma eq_symmetric_nil [C09] (a any, b any): values.ToLiquid(a) == nil ==> values.Equal(a, b) == values.Equal(b, a)
+//@ lemma lt_irreflexive_ints [C09] (a any): isint(kind(values.ToLiquid(a))) ==> !values.Less(a, a)
+//@ lemma lt_eq_exclusive_ints [C09] (a any, b any): isint(kind(values.ToLiquid(a))) && isint(kind(values.ToLiquid(b))) ==> !(values.Less(a, b) && values.Equal(a, b))
+//@ lemma trichotomy_ints [C09] (a any, b any): isint(kind(values.ToLiquid(a))) && isint(kind(values.ToLiquid(b))) ==> values.Less(a, b) || values.Equal(a, b) || values.Less(b, a)
